@@ -3,7 +3,7 @@ import json
 import os
 import vlib
 
-PROPS = ['Rangers.Props.C04', 'Rangers.Props.C04B']
+PROPS = ['Rangers.Props.C04', 'Rangers.Props.C04B', 'Rangers.Props.C04C']
 DRIVERS = ['C04']
 BOUND_TOKEN = 'b0' + '5e' * 19      # a non-zero bound token contract for the second configuration
 
